@@ -21,8 +21,8 @@ def top_fns(crate, fns):
         if "{closure" in p:
             continue
         b = crate.hir.get(p)
-        if b is not None:
-            out.append((p, b))
+        if b is not None and not b.get("inlined_everywhere"):
+            out.append((p, b))        # (helpers added since the review and inlined into their callers are seen there)
     return out
 
 
@@ -109,6 +109,9 @@ def reattribute(items, own):
     """items found in new functions are counted at each reviewed caller instead"""
     out = []
     for it in items:
+        if it.get("hir") and it["fn"] not in own:
+            out.append(it)
+            continue
         if it["fn"] in own:
             for o in own[it["fn"]]:
                 out.append(dict(it, fn=o, via=it["fn"]))
